@@ -78,8 +78,21 @@ def r1(ctx):
     ctx.check(not others, "C10.R1", "comparator-writers", U, "cmp_fp written only at init", key="C10.R1:writers")
 
 
+def lookup_shape(pdb):
+    """the lookup rules (which entries are copied, the walk sees every entry, the result under allocation failure) are written for
+    lookups that grow the result by one record per match while walking once; a lookup that counts first and fills a pre-sized
+    array in a second walk is another algorithm and is not recognised by matching"""
+    for name in ("spki_table_get_all", "spki_table_search_by_ski"):
+        f = pdb.fn(name)
+        if not f.calls("lrtr_realloc") and len(f.calls("key_entry_to_spki_record")) >= 1:
+            raise AnalysisBroken("%s: the result is no longer grown with lrtr_realloc per matching entry (pre-sized result, filled in a "
+                                 "second walk?): the rules on which entries are copied and on a failed allocation are written for the "
+                                 "one-walk form" % name)
+
+
 def r2(ctx, retsets):
     pdb = ctx.pdb
+    lookup_shape(pdb)
     ctx.rule("C10.R2", "spki_table_get_all copies an entry iff its AS equals the queried AS and its SKI equals the queried SKI; "
              "spki_table_search_by_ski iff the SKI is equal; the copy carries asn, ski, spki and socket")
     conv = pdb.fn("key_entry_to_spki_record", U)
@@ -311,7 +324,9 @@ def r4(ctx):
             src = h[3][0] if good else None
             own = good and src[0] == "load" and vf.last_field(src[1]) == "key_entry.asn" and \
                 any(vf.root_of(vf.expr(f, a)) == vf.root_of(src[1]) for a in c.args[1:-1])     # the AS number of the very entry handed to the call
-            good = good and (own or src == ("arg", 1) or (src[0] == "load" and vf.last_field(src[1]) == "spki_record.asn" and vf.root_of(src[1]) == ("arg", 1)))
+            # the hash stored in the hash node of an entry that is in a table is the hash it was inserted with
+            stored = h[0] == "load" and vf.last_field(h[1]).endswith(".key") and "key_entry.hash_node" in str(h[1])
+            good = stored or good and (own or src == ("arg", 1) or (src[0] == "load" and vf.last_field(src[1]) == "spki_record.asn" and vf.root_of(src[1]) == ("arg", 1)))
             ctx.check(good, "C10.R4", "%s:%s" % (f.name, c.callee), c.loc(), "hash argument %s" % vf.show(h), key="C10.R4:%s:%s" % (f.name, c.callee))
     ctx.floor("C10.R4", n, 3)
 
